@@ -54,6 +54,26 @@ def grid_regions(ctx, rnd):
     ctx.replay(cases, timeout=1800)
 
 
+def origin_regions(ctx, rnd):
+    """Regions placed relative to OriginPoint(), the fixed point from which Loop / Polygon count crossings
+    (shells around it, holes that surround it, islands in such holes, shells beside it)."""
+    import json
+    q = ctx.quick()
+    p = ctx.run_harness(["record", "c04origin"], timeout=120)
+    if p.returncode != 0:
+        raise vlib.Infra("vcheck record c04origin failed: %s" % p.stderr[-2000:])
+    org = json.loads(p.stdout)
+    cases = []
+    for G, steps in ([(4, [1, 4])] if q else [(3, [1, 2]), (4, [1, 4]), (5, [1, 8]), (6, [1])]):
+        oi, oj = org["ij"][str(G)]
+        cfg = w2.grid_cfg(rnd, G, "loop", "c04grid", ["ohole", "oisland", "onear"], [org["face"]], steps, [0], with_cells=False,
+                          prove=G <= 4, invariants=GRID_INV, origin=(oi, oj))
+        r = ctx.tlc("Gen_Grid", cfg, workers=12, timeout=1500)
+        cases += r.tagged.get("CASE", [])
+    ctx.log("regions around OriginPoint (face %d): %d" % (org["face"], len(cases)))
+    ctx.replay(cases, timeout=1800)
+
+
 def tilings(ctx, rnd):
     q = ctx.quick()
     if q:
@@ -86,9 +106,11 @@ def run(ctx):
         "loops handed to the library are valid: certified by TLC with non-zero determinants (W1) / rectilinear cell unions (W2)",
         "W2: Cell.Vertex corners of one face are bit-identical for the cells sharing them; probes are cell centres (CellID.Point)",
         "points on region boundaries (grid vertices on edges, edge midpoints): no prediction, only agreement of all paths and exactly-once",
+        "OriginPoint() lies strictly inside a cell of every grid level used (the harness locates the cell from the real point)",
     ]
     lattice_loops(ctx, rnd)
     grid_regions(ctx, rnd)
+    origin_regions(ctx, rnd)
     tilings(ctx, rnd)
     # extension: ContainsVertexQuery / AngleContainsVertex on the integer lattice (spec/VertexQuery.tla)
     try:
